@@ -70,7 +70,8 @@ Lemma compress_generic_nodict_sound c src srcSize cap od t small accel :
   (0 < a_ret a ->
    a_ret a = Z.of_nat (length (a_out a)) /\
    strict_valid [] (a_out a) = Some (load_list src 0 (Z.to_nat srcSize)) /\
-   (srcSize <> 0 -> a_consumed a = srcSize)).
+   (srcSize <> 0 -> a_consumed a = srcSize) /\
+   bytes_ok (a_out a) = true).
 Proof.
   intros Hsrc Hod Hacc Hds Hcur Htab Hu16 Hix. unfold compress_generic_nodict.
   destruct ((srcSize <? 0) || (srcSize >? LZ4_MAX_INPUT_SIZE)) eqn:E0; cbv zeta; cbn [a_ret a_ctx].
@@ -79,7 +80,7 @@ Proof.
   { assert (srcSize = 0) as -> by lia.
     destruct ((match od with NotLimited => false | _ => true end) && (cap <=? 0)); cbn [a_ret a_out a_consumed a_ctx];
       (split; [reflexivity|]; split; [lia|]); [lia|].
-    intros _. split; [reflexivity | split; [reflexivity | lia]]. }
+    intros _. split; [reflexivity | split; [reflexivity | split; [lia | reflexivity]]]. }
   assert (Ef : (match od with FillOutput => true | _ => false end) = false).
   { destruct od; try reflexivity. exfalso; apply Hod; reflexivity. }
   rewrite Ef. cbn [andb].
@@ -105,7 +106,11 @@ Proof.
     split; [intros; lia|]. split.
     + intros _. split; [reflexivity|]. split; [reflexivity|]. split; [reflexivity|].
       intros h. rewrite HB in Ft. destruct (Ft h) as [? _]. lia.
-    + intros _. split; [reflexivity|]. split; [|intros _; exact F1].
+    + intros _. split; [reflexivity|].
+      assert (Hby : bytes_ok (encode_block ss last) = true).
+      { apply encode_block_bytes; [eapply seqs_valid_wf; [|exact F2]; intros x; apply Hsrc|].
+        subst last. apply seg_bytes_ok. intros x. apply Hsrc. }
+      split; [|split; [intros _; exact F1 | exact Hby]].
       assert (R2 : strict_valid (seg vrd (hist_lo CNoDict (f_cur c) (f_dictSize c)) (f_cur c)) (encode_block ss last)
                    = Some (seg vrd (f_cur c) (f_cur c + srcSize))).
       { rewrite strict_valid_encode.
